@@ -46,6 +46,14 @@ CHECKS = {
    text="Access.tla models the token set (issued, revoked, admin=0); TLC checks AdminAlways, RevokedNeverValid, RevocationIsForEver, OthersUnaffected, RejectedChangesNothing; TLC enumerates EVERY sequence of create/revoke(existing|unknown|admin|already revoked, as admin or as user)/restart of length 5 (6 sampled in thorough) and the harness replays each over gin + the SQL token repository, presenting EVERY token (admin, issued, revoked, never issued) on two HTTP routes after EVERY step, and performing a real centrifuge-go websocket connect handshake against the real websocket server after every step (all histories in thorough, 1/40 in quick); close/reopen for restart; issued tokens pairwise distinct.",
    technique="explicit TLA+ set model (Access.tla) model-checked by TLC; exhaustive TLC op sequences replayed over HTTP + real websocket connect",
    note=TB),
+ "C12": dict(cat="model_checking", ref="DESIGN.md §5 C12",
+   text="Webhooks.tla models per-url [registered, active, errors, auth, last]; TLC checks InactiveIffErrorsReachedMax, SuccessResets, InactiveOrDeletedNotCalled, OnePostPerEventWithExactAuth, ReRegisterRule for max_tries 1,2,3(,5); TLC enumerates every sequence of register(bearer|custom|none)/delete/notify(outcome per called hook: 200, 500, transport error, unreadable body)/restart over two urls to depth 4-5 and simulates to depth 12-24; each is replayed over the HTTP endpoints + SQL webhook repository + real WebhooksService with a scripted client AND with the production client posting to an httptest server (method, exact auth header, body recorded server-side); after EVERY operation GET /webhook?url= of every url (active, errorsCount, last status, timestamp) is compared.",
+   technique="explicit TLA+ spec (Webhooks.tla) model-checked by TLC; TLC-generated operation sequences replayed over HTTP + SQL + the real service and production client",
+   note=TB),
+ "C16": dict(cat="exploration", ref="DESIGN.md §5 C16, §6",
+   text="ApiErrors.tla defines, per API route, the classes of every path/query/body parameter and the status family the server owes for each combination (never 5xx; validatable mistakes 4xx); TLC emits the full product (243 rows); each row is concretised several times (4 quick / 40 thorough) by a seeded grammar and sent through the production gin engine with gin.Recovery over the real stack on a store with a fork and an orphan chain; checked: no 5xx, status family, body exactly one JSON value, 4xx with non-empty code and message, headers-table digest unchanged.",
+   technique="explicit TLA+ request-class table (ApiErrors.tla) emitted by TLC; grammar-concretised requests against the real gin engine and SQL stack",
+   note=TB + " 'Any HTTP request whatsoever' is approximated by the class product with several instances per class; requests that match no registered route are out of scope."),
 }
 
 NA = []
